@@ -652,3 +652,58 @@ Proof.
   destruct (run_sc_suffix _ _ _ Hrun) as [p Hp]. exists sc', p.
   split; [exact Hrun|]. split; [exact Hp|]. split; [exact Hi|]. intros ops. apply rest_then_dead.
 Qed.
+
+(* ---- what k calls of Next consumed determines their observations ---- *)
+
+Definition with_inp (sc : scanner) (i : bytes) : scanner :=
+  {| inp := i; st := st sc; cur := cur sc; eof := eof sc |}.
+
+Lemma scan_emit_prefix : forall i st acc t r s', scan_next i st acc = NEmit t r s' ->
+  exists p, i = p ++ r /\ forall r2, scan_next (p ++ r2) st acc = NEmit t r2 s'.
+Proof.
+  induction i as [|c i IH]; intros st acc t r s' H; [discriminate|].
+  rewrite scan_step in H. destruct (update st (class_of c)) as [[s2 a]|] eqn:Eu; [|discriminate].
+  destruct a.
+  1-3: (apply IH in H; destruct H as (p & -> & Hp); exists (c :: p); split; [reflexivity|];
+        intros r2; cbn [app]; rewrite scan_step, Eu; apply Hp).
+  inversion H; subst. exists [c]. split; [reflexivity|]. intros r2. cbn [app]. rewrite scan_step, Eu. reflexivity.
+Qed.
+
+Lemma run_sc_eof : forall k sc sc', eof sc = true -> run_sc sc (repeat ONext k) = Some sc' -> sc' = sc.
+Proof.
+  induction k as [|k IH]; intros sc sc' He H; [inversion H; reflexivity|].
+  cbn [repeat run_sc] in H. rewrite (next_at_eof sc He) in H. apply IH; assumption.
+Qed.
+
+Lemma consumed_prefix : forall k sc0 sc, run_sc sc0 (repeat ONext k) = Some sc ->
+  exists p, inp sc0 = p ++ inp sc /\
+            run_ops (with_inp sc0 p) (repeat ONext k) = run_ops sc0 (repeat ONext k).
+Proof.
+  induction k as [|k IH]; intros sc0 sc H.
+  - inversion H; subst. exists []. split; reflexivity.
+  - cbn [repeat run_sc run_ops] in *.
+    destruct (eof sc0) eqn:He.
+    + rewrite (next_at_eof sc0 He) in *. destruct (IH _ _ H) as (p & Hp & Hr).
+      exists p. split; [exact Hp|].
+      assert (Hn: next (with_inp sc0 p) = Some (with_inp sc0 p, false)) by (apply next_at_eof; exact He).
+      rewrite Hn, Hr. reflexivity.
+    + unfold next in *. cbn [with_inp eof inp st]. rewrite He in *.
+      destruct (scan_next (inp sc0) (st sc0) []) as [|t r s'|has t s'] eqn:E; [discriminate| |].
+      * destruct (scan_emit_prefix _ _ _ _ _ _ E) as (p1 & Hp1 & Hsc).
+        destruct (IH _ _ H) as (p' & Hp' & Hr). cbn [inp] in Hp'.
+        exists (p1 ++ p'). split; [rewrite Hp1, Hp', app_assoc; reflexivity|].
+        rewrite Hsc. cbn [text complete cur st]. unfold with_inp in Hr. cbn [st cur eof] in Hr.
+        rewrite Hr. reflexivity.
+      * apply run_sc_eof in H; [|reflexivity]. subst sc. cbn [inp].
+        exists (inp sc0). split; [rewrite app_nil_r; reflexivity|]. rewrite E. reflexivity.
+Qed.
+
+Theorem rest_consumed s k : exists consumed,
+  s = consumed ++ ref_rest k s /\
+  run_ops (new_scanner consumed) (repeat ONext k) = run_ops (new_scanner s) (repeat ONext k).
+Proof.
+  destruct (run_sc_rest k s true (new_scanner s)) as (sc' & Hrun & Hi).
+  { left. repeat split. }
+  destruct (consumed_prefix _ _ _ Hrun) as (p & Hp & Hr). exists p.
+  split; [rewrite <- Hi; exact Hp|exact Hr].
+Qed.
